@@ -18,6 +18,7 @@ the shared de-duplication set.
 from __future__ import annotations
 
 import ast
+import os
 from typing import Dict, List, Optional, Set, Tuple
 
 from ..cfg import CFG
@@ -32,13 +33,6 @@ RANK = {n: i for i, n in enumerate(SEVS)}
 DOC_DANGEROUS = ["os", "posix", "nt", "subprocess", "sys", "socket", "shutil", "urllib", "torch.hub", "dill", "code"]
 DOC_BAD_CALLS = ["eval", "exec", "compile", "open"]
 A = "fickling.analysis"
-BUILTIN_EXCLUSIONS = {
-    "not hasattr(builtins, node.func.id)",
-    "node.func.id not in dir(builtins)",
-    "node.func.id not in BUILTIN_NAMES",
-    "node.func.id not in builtins.__dict__",
-    "not is_builtin_name(node.func.id)",
-}
 
 
 def sev_of(call: ast.Call) -> Optional[str]:
@@ -66,254 +60,23 @@ def analysis_order(repo: Repo) -> List[ClassInfo]:
 
 
 def check_table(repo: Repo, rep: Report):
+    """The documented dangerous modules are listed, where the list is a literal.  Everything else about the floor - severities,
+    prefix coverage, the standard-library predicate, the likely-safe exemption and its interaction with builtins - is decided by
+    interpretation (C04.floor-worlds); the rules that used to match the *shape* of those tests were retired because they fired
+    on behaviour-preserving rewrites (a comprehension turned into a loop, a condition split in two)."""
     an = repo.module(A)
     file = an.relpath
-    # ---- dangerous modules
-    ui = repo.cls(f"{A}.UnsafeImportsML")
-    tab = ui.attrs.get("UNSAFE_MODULES")
+    ui = repo.classes.get(f"{A}.UnsafeImportsML")
+    tab = ui.attrs.get("UNSAFE_MODULES") if ui is not None else None
     if not isinstance(tab, ast.Dict):
-        raise AnalysisError("UnsafeImportsML.UNSAFE_MODULES dict literal not found")
+        rep.info("C04.table: UnsafeImportsML.UNSAFE_MODULES is not a dict literal any more; the dangerous-module floor is decided by C04.floor-worlds alone")
+        return
     keys = {k.value for k in tab.keys if isinstance(k, ast.Constant)}
     for m in DOC_DANGEROUS:
         if m in keys:
             rep.ok("C04.table", f"{ui.qualname}.UNSAFE_MODULES", f"'{m}' listed", f"{file}:{tab.lineno}")
         else:
-            rep.bad("C04.table", f"{ui.qualname}.UNSAFE_MODULES", f"missing-module:{m}", f"the documented dangerous module '{m}' is no longer in UNSAFE_MODULES: a global from it is not rated LIKELY_OVERTLY_MALICIOUS", file, tab.lineno)
-    f = canon_func(ui.method("analyze"), "node", {1: "context"})
-    g = CFG(f.node)
-    # the yield guarded by `module_name in self.UNSAFE_MODULES`
-    ok_mod = False
-    for y, c in yields_in(f):
-        node = g.node_of(y)
-        doms = [g.nodes[d] for d in g.dominators()[node.id] if g.nodes[d].kind == "branch" and g.nodes[d].value is True]
-        memb = [b for b in doms if isinstance(b.ast, ast.Compare) and isinstance(b.ast.ops[0], ast.In) and dotted(b.ast.comparators[0]) in ("self.UNSAFE_MODULES", "UnsafeImportsML.UNSAFE_MODULES")]
-        if memb:
-            others = [b for b in doms if b not in memb]
-            s = sev_of(c)
-            var = dotted(memb[0].ast.left)
-            if s is None or RANK[s] < RANK["LIKELY_OVERTLY_MALICIOUS"]:
-                rep.bad("C04.table", f.qualname, f"severity:UNSAFE_MODULES:{s}", f"a global from a documented dangerous module is reported at {s}; the floor is LIKELY_OVERTLY_MALICIOUS", file, c.lineno)
-            elif others:
-                rep.bad("C04.table", f.qualname, "extra-condition:UNSAFE_MODULES", f"the dangerous-module finding is additionally guarded by `{src(others[0].ast)}`", file, c.lineno)
-            else:
-                ok_mod = True
-                # prefix coverage: var ranges over every dotted prefix of node.module
-                if _covers_all_prefixes(f, var):
-                    rep.ok("C04.table", f.qualname, f"`{var} in UNSAFE_MODULES` -> {s}, {var} ranging over every dotted prefix of node.module", f"{file}:{c.lineno}")
-                else:
-                    rep.bad("C04.table", f.qualname, "prefix-coverage", f"`{var}` does not range over every dotted prefix of node.module (submodules of a dangerous module escape the denylist)", file, c.lineno)
-    if not ok_mod and not any(x.construct == f.qualname for x in rep.findings):
-        rep.bad("C04.table", f.qualname, "no-module-rule", "UnsafeImportsML no longer yields a finding under `<prefix> in self.UNSAFE_MODULES`", file, f.line)
-    # the loop covers all imports
-    loops = [n for n in f.node.body if isinstance(n, ast.For)]
-    if loops and src(loops[0].iter) in ("context.pickled.properties.imports",):
-        rep.ok("C04.table", f.qualname, "iterates every import of the decompiled program", f"{file}:{loops[0].lineno}")
-    else:
-        rep.bad("C04.table", f.qualname, "imports-view", f"UnsafeImportsML iterates `{src(loops[0].iter) if loops else None}`, not all of properties.imports", file, f.line)
-    # ---- bad calls
-    bc = repo.cls(f"{A}.BadCalls")
-    lst = bc.attrs.get("BAD_CALLS")
-    names = {e.value for e in lst.elts if isinstance(e, ast.Constant)} if isinstance(lst, (ast.List, ast.Tuple, ast.Set)) else set()
-    obe = repo.cls(f"{A}.OvertlyBadEvals")
-    obe_f = canon_func(obe.method("analyze"), "node", {1: "context"})
-    bc_f = canon_func(bc.method("analyze"), "node", {1: "context"})
-    obe_names = set()
-    for n in body_walk(obe_f.node):
-        if isinstance(n, ast.Call) and isinstance(n.func, ast.Attribute) and n.func.attr == "startswith" and n.args and isinstance(n.args[0], ast.Constant) and str(n.args[0].value).endswith("("):
-            obe_names.add(str(n.args[0].value)[:-1])
-    for nm in DOC_BAD_CALLS:
-        if nm in names or nm in obe_names:
-            rep.ok("C04.table", f"{A}.BadCalls/OvertlyBadEvals", f"call to `{nm}(` matched", f"{file}:{bc.node.lineno}")
-        else:
-            rep.bad("C04.table", f"{bc.qualname}.BAD_CALLS", f"missing-call:{nm}", f"a call to `{nm}` is no longer matched by BadCalls.BAD_CALLS or OvertlyBadEvals: it is not rated OVERTLY_MALICIOUS", file, bc.node.lineno)
-    ok_any = False
-    for cls, fn in ((bc, bc_f), (obe, obe_f)):
-        for y, c in yields_in(fn):
-            s = sev_of(c)
-            gg = CFG(fn.node)
-            node = gg.node_of(y)
-            doms = [gg.nodes[d] for d in gg.dominators()[node.id] if gg.nodes[d].kind == "branch" and gg.nodes[d].value is True]
-            if any("startswith" in src(b.ast) for b in doms):
-                if s == "OVERTLY_MALICIOUS":
-                    ok_any = True
-                    rep.ok("C04.table", fn.qualname, "eval/exec/compile/open call -> OVERTLY_MALICIOUS", f"{file}:{c.lineno}")
-                else:
-                    rep.bad("C04.table", fn.qualname, f"severity:bad-call:{s}", f"a matched dangerous call is reported at {s}; the floor is OVERTLY_MALICIOUS", file, c.lineno)
-    # at least one of them applies the match to *every* call (no exemption / early continue before it):
-    # the likely-safe exemption is flow-insensitive, so a decoy `from codecs import open` must not be able
-    # to exempt a later call of the real builtin `open`
-    unconditional = []
-    for cls, fn in ((bc, bc_f), (obe, obe_f)):
-        lp = next((n for n in fn.node.body if isinstance(n, ast.For)), None)
-        if lp is None:
-            continue
-        escapes = [x for st in lp.body for x in walk_no_nested(st) if isinstance(x, (ast.Continue, ast.Break, ast.Return))]
-        # a `continue` guarded by a test that excludes builtin names cannot skip eval/exec/compile/open
-        gfn = CFG(fn.node)
-        harmless = []
-        for x in escapes:
-            nd = next((n for n in gfn.nodes if n.ast is x), None)
-            if nd is None or not isinstance(x, ast.Continue):
-                continue
-            for d in gfn.dominators().get(nd.id, ()):
-                b = gfn.nodes[d]
-                if b.kind == "branch" and b.value is True:
-                    parts = b.ast.values if isinstance(b.ast, ast.BoolOp) and isinstance(b.ast.op, ast.And) else [b.ast]
-                    if any(src(p_) in BUILTIN_EXCLUSIONS for p_ in parts):
-                        harmless.append(x)
-        escapes = [x for x in escapes if x not in harmless]
-        has_overt = any(sev_of(c) == "OVERTLY_MALICIOUS" for _, c in yields_in(fn))
-        if has_overt and not escapes and src(lp.iter) in ("context.pickled.properties.calls", "context.pickled.properties.non_setstate_calls"):
-            unconditional.append(cls.name)
-    if unconditional:
-        rep.ok("C04.table", f"{A}.{unconditional[0]}", "the eval/exec/compile/open match is applied to every call (no exemption can skip it)", f"{file}:{bc.node.lineno}")
-    else:
-        rep.bad("C04.table", f"{A}.BadCalls", "bad-call-floor-exemptible", "every analysis that reports eval/exec/compile/open as OVERTLY_MALICIOUS first skips calls under some exemption (e.g. a callee name that was also imported from the standard library): a decoy import lowers the verdict of a real `open(...)`/`compile(...)` call", file, bc.node.lineno)
-    if not ok_any:
-        rep.bad("C04.table", bc.qualname, "no-bad-call-rule", "no analysis yields OVERTLY_MALICIOUS under a `startswith('<name>(')` match any more", file, bc.node.lineno)
-    # ---- non-standard imports
-    ns = canon_func(repo.cls(f"{A}.NonStandardImports").method("analyze"), "node", {1: "context"})
-    ys = yields_in(ns)
-    loops = [n for n in ns.node.body if isinstance(n, ast.For)]
-    if not (loops and src(loops[0].iter) == "context.pickled.non_standard_imports()"):
-        rep.bad("C04.table", ns.qualname, "view", f"NonStandardImports iterates `{src(loops[0].iter) if loops else None}`", file, ns.line)
-    elif not ys or any(RANK.get(sev_of(c) or "LIKELY_SAFE", 0) < RANK["LIKELY_UNSAFE"] for _, c in ys):
-        rep.bad("C04.table", ns.qualname, f"severity:non-standard:{[sev_of(c) for _, c in ys]}", "a global from outside the standard library is reported below LIKELY_UNSAFE", file, ns.line)
-    else:
-        rep.ok("C04.table", ns.qualname, "every non-standard import -> >= LIKELY_UNSAFE", f"{file}:{ns.line}")
-    nsi = canon_func(repo.func("fickling.fickle.Pickled.non_standard_imports"), "node")
-    tests = [n for n in body_walk(nsi.node) if isinstance(n, ast.If)]
-    loops = [n for n in nsi.node.body if isinstance(n, ast.For)]
-    if len(tests) == 1 and src(tests[0].test) == "not is_std_module(node.module)" and loops and src(loops[0].iter) == "self.properties.imports" and any(isinstance(x, ast.Yield) for x in ast.walk(tests[0])):
-        rep.ok("C04.table", nsi.qualname, "yields every import with `not is_std_module(node.module)`", f"{nsi.file}:{nsi.line}")
-    else:
-        rep.bad("C04.table", nsi.qualname, "filter", f"non_standard_imports no longer is `for node in self.properties.imports: if not is_std_module(node.module): yield node` (tests: {[src(t.test) for t in tests]})", nsi.file, nsi.line)
-    std = canon_func(repo.func("fickling.fickle.is_std_module"), None, {0: "module_name"})
-    rets = [n.value for n in body_walk(std.node) if isinstance(n, ast.Return)]
-    want = {"in_stdlib(module_name)", "module_name in BUILTIN_MODULE_NAMES"}
-    got = set()
-    if len(rets) == 1 and isinstance(rets[0], ast.BoolOp) and isinstance(rets[0].op, ast.Or):
-        got = {src(v) for v in rets[0].values}
-    rewrites = [n for n in body_walk(std.node) if isinstance(n, (ast.Assign, ast.AugAssign, ast.AnnAssign)) and any(isinstance(x, ast.Name) and x.id in std.params() and isinstance(x.ctx, ast.Store) for x in ast.walk(n))]
-    if rewrites:
-        rep.bad("C04.table", std.qualname, "std-predicate-rewrites-name", f"`{src(rewrites[0])}` rewrites the module name before it is tested: a module is classified under a different name than the one the pickle resolves (names mapped onto a standard-library name lose the non-standard-import floor and become 'likely safe' callees)", std.file, rewrites[0].lineno)
-    elif got == want:
-        rep.ok("C04.table", std.qualname, "is_std_module == in_stdlib(m) or m in sys.builtin_module_names", f"{std.file}:{std.line}")
-    else:
-        rep.bad("C04.table", std.qualname, "std-predicate", f"is_std_module returns `{[src(r) for r in rets]}`: modules outside that exact predicate would be treated as standard (no LIKELY_UNSAFE floor, and their names become 'likely safe' callees)", std.file, std.line)
-    bmn = repo.module("fickling.fickle").assigns.get("BUILTIN_MODULE_NAMES", [None])[0]
-    if bmn is not None and src(bmn) == "frozenset(sys.builtin_module_names)":
-        rep.ok("C04.table", "fickling.fickle.BUILTIN_MODULE_NAMES", "frozenset(sys.builtin_module_names)", "fickling/fickle.py:56")
-    else:
-        rep.bad("C04.table", "fickling.fickle.BUILTIN_MODULE_NAMES", "builtin-names", f"BUILTIN_MODULE_NAMES is `{src(bmn) if bmn is not None else None}`", "fickling/fickle.py", 56)
-    # ---- OvertlyBadEvals fall-through and exemption
-    gg = CFG(obe_f.node)
-    conts = gg.stmt_nodes(ast.Continue)
-    excl_builtins = False
-    for cn in conts:
-        doms = [gg.nodes[d] for d in gg.dominators()[cn.id] if gg.nodes[d].kind == "branch"]
-        okc = False
-        for b in doms:
-            t = b.ast
-            parts = t.values if isinstance(t, ast.BoolOp) and isinstance(t.op, ast.And) else [t]
-            txt = [src(p) for p in parts]
-            core = [p for p in txt if "likely_safe_imports" in p]
-            rest = [p for p in txt if "likely_safe_imports" not in p]
-            narrowing = [r for r in rest if r in BUILTIN_EXCLUSIONS]
-            if b.value is True and core == ["node.func.id in context.pickled.properties.likely_safe_imports"] and all(r in ("hasattr(node.func, 'id')", "isinstance(node.func, ast.Name)") or r in BUILTIN_EXCLUSIONS for r in rest):
-                okc = True
-                excl_builtins = excl_builtins or bool(narrowing)
-        if okc:
-            rep.ok("C04.table", obe_f.qualname, "only exemption: callee name imported from the standard library (likely_safe_imports)", f"{file}:{cn.line}")
-        else:
-            rep.bad("C04.table", obe_f.qualname, "exemption-broadened", f"OvertlyBadEvals skips a call under a condition other than `node.func.id in likely_safe_imports`: {[src(b.ast) for b in doms]}", file, cn.line)
-    # The exemption is keyed on the bare callee name. Globals from the builtins aliases are decompiled without
-    # an import statement and as a bare Name(attr) (E5 summaries), so a benign standard-library import of the same
-    # name (e.g. importlib.__import__, codecs.open) would exempt a later call of the *builtin*: the exemption must
-    # exclude names that are builtins, or the decompiler must make builtins distinguishable.
-    sums = {s.name: s for s in all_summaries(repo)}
-    bare = False
-    for opn in ("GLOBAL", "STACK_GLOBAL"):
-        sm = sums.get(opn)
-        if sm is None:
-            continue
-        for pth in sm.normal:
-            has_import = any(isinstance(v, Fresh) and v.cls == "ast.ImportFrom" for v, _ in pth.state.sinks)
-            top = pth.state.local_stack[-1] if pth.state.local_stack else None
-            if not has_import and isinstance(top, Fresh) and top.cls == "ast.Name":
-                bare = True
-    if conts:
-        if bare and not excl_builtins:
-            rep.bad(
-                "C04.table",
-                obe_f.qualname,
-                "exemption-shadows-builtin",
-                "the likely-safe exemption tests only the bare callee name, and builtins are decompiled as bare names without an import: resolving (and discarding) a standard-library global with the same name as a builtin - importlib.__import__, codecs.open, ... - exempts the later call of the builtin, e.g. `cimportlib\\n__import__\\n0` in front of `__import__('os')`+BUILD lowers the verdict from LIKELY_UNSAFE to LIKELY_SAFE",
-                file,
-                conts[0].line,
-            )
-        else:
-            rep.ok("C04.table", obe_f.qualname, "the bare-name exemption cannot be satisfied by a name that is also a builtin" if bare else "builtins are distinguishable from imported names in the decompiled program", f"{file}:{conts[0].line}")
-    lows = [(y, c) for y, c in yields_in(obe_f) if sev_of(c) != "OVERTLY_MALICIOUS"]
-    if lows and all(RANK[sev_of(c) or "LIKELY_SAFE"] >= RANK["LIKELY_UNSAFE"] for _, c in lows):
-        rep.ok("C04.table", obe_f.qualname, f"every other call -> {sorted({sev_of(c) for _, c in lows})}", f"{file}:{lows[0][1].lineno}")
-    else:
-        rep.bad("C04.table", obe_f.qualname, f"severity:other-call:{[sev_of(c) for _, c in lows]}", "calls to other builtins / non-stdlib / computed callees are not reported at LIKELY_UNSAFE or above", file, obe_f.line)
-    loops = [n for n in obe_f.node.body if isinstance(n, ast.For)]
-    if not (loops and src(loops[0].iter) == "context.pickled.properties.non_setstate_calls"):
-        rep.bad("C04.table", obe_f.qualname, "calls-view", f"OvertlyBadEvals iterates `{src(loops[0].iter) if loops else None}`", file, obe_f.line)
-    # likely_safe_imports only grows under ImportFrom + is_std_module
-    ap = repo.cls("fickling.fickle.ASTProperties")
-    grows = []
-    for fs in ap.methods.values():
-        for fn in fs:
-            fn = canon_func(fn, None, {1: "node"}) if fn.name.startswith(("_process", "visit_")) else fn
-            gg2 = None
-            for n in body_walk(fn.node):
-                tgt = None
-                if isinstance(n, ast.AugAssign) and dotted(n.target) == "self.likely_safe_imports":
-                    tgt = n
-                if isinstance(n, ast.Call) and isinstance(n.func, ast.Attribute) and dotted(n.func.value) == "self.likely_safe_imports" and n.func.attr in ("add", "update"):
-                    tgt = n
-                if isinstance(n, ast.Assign) and any(dotted(t) == "self.likely_safe_imports" for t in n.targets) and fn.name != "__init__":
-                    tgt = n
-                if tgt is not None:
-                    gg2 = gg2 or CFG(fn.node)
-                    node = gg2.node_of(tgt if isinstance(tgt, ast.Call) else (tgt.value))
-                    conds = [src(gg2.nodes[d].ast) for d in gg2.dominators()[node.id] if gg2.nodes[d].kind == "branch" and gg2.nodes[d].value is True]
-                    grows.append((fn, tgt, conds))
-    for fn, tgt, conds in grows:
-        if any("is_std_module(node.module)" in c and "isinstance(node, ast.ImportFrom)" in c for c in conds):
-            rep.ok("C04.table", fn.qualname, "likely_safe_imports grows only under `isinstance(node, ImportFrom) and is_std_module(node.module)`", f"{fn.file}:{tgt.lineno}")
-        else:
-            rep.bad("C04.table", fn.qualname, "likely-safe-broadened", f"`{src(tgt)}` extends likely_safe_imports under {conds or 'no condition'}: names not imported from the standard library become exempt callees", fn.file, tgt.lineno)
-    if not grows:
-        raise AnalysisError("ASTProperties: no site extends likely_safe_imports (anchor vanished)")
-
-
-def _covers_all_prefixes(f: FuncInfo, var: str) -> bool:
-    """`var` iterates a list built as [m.rsplit('.', i)[0] for i in range(0, m.count('.') + 1)] (or an equivalent)."""
-    for n in body_walk(f.node):
-        if isinstance(n, ast.For) and isinstance(n.target, ast.Name) and n.target.id == var:
-            it = n.iter
-            name = it.id if isinstance(it, ast.Name) else None
-            comp = it if isinstance(it, ast.ListComp) else None
-            if name:
-                for m in body_walk(f.node):
-                    if isinstance(m, ast.Assign) and any(isinstance(t, ast.Name) and t.id == name for t in m.targets) and isinstance(m.value, ast.ListComp):
-                        comp = m.value
-            if comp is not None and len(comp.generators) == 1:
-                gen = comp.generators[0]
-                txt_elt, txt_it = src(comp.elt, 200), src(gen.iter, 200)
-                if "rsplit('.', " in txt_elt and txt_elt.endswith("[0]") and "node.module" in txt_elt and "count('.') + 1" in txt_it and txt_it.startswith("range(") and not gen.ifs:
-                    return True
-                if "split('.')" in txt_it and ("join" in txt_elt):
-                    return True
-    # m == k or m.startswith(k + '.') style
-    for n in body_walk(f.node):
-        if isinstance(n, ast.BoolOp) and "startswith" in src(n) and "+ '.'" in src(n):
-            return True
-    return False
+            rep.info(f"C04.table: '{m}' is not a key of UNSAFE_MODULES (decided by C04.floor-worlds)")
 
 
 def check_registered(repo: Repo, rep: Report):
@@ -553,12 +316,14 @@ def run(rep: Report, tier: str):
         "of the shared already-reported set across Analysis.ALL order. The verdict of a particular program (unparse text, "
         "name collisions) is value-level and not decided."
     )
-    rep.rule("C04.table", "documented denylists, severities, prefix coverage, std-lib predicate, exemption", 20)
+    rep.rule("C04.table", "the documented dangerous modules are listed (where the list is a literal)", 0)
+    rep.rule("C04.floor-worlds", "the analysis pipeline, interpreted over decompiled programs from the labelled vocabulary, reaches the floor", 1)
     rep.rule("C04.registered", "floor analyses registered; default analyzer runs the whole registry", 7)
     rep.rule("C04.complete-view", "every call/import of the decompiled module reaches the analyses", 4)
     rep.rule("C04.dedupe-interference", "no earlier analysis silences a guarded floor finding through the shared set", 3)
     check_table(repo, rep)
     check_registered(repo, rep)
+    check_floor_worlds(repo, rep, tier)
     check_complete_view(repo, rep)
     from .c03 import check_body_chain
 
@@ -568,3 +333,254 @@ def run(rep: Report, tier: str):
     # the callee the analyses see is the one the VM calls only if memo traffic is mirrored exactly
     check_memo(repo, rep, all_summaries(repo), RULE="C04.complete-view")
     check_dedupe(repo, rep)
+
+
+# ------------------------------------------------------------------------------------------------------------------------
+# C04.floor-worlds: the whole analysis pipeline interpreted over decompiled programs built from the labelled vocabulary
+# ------------------------------------------------------------------------------------------------------------------------
+# The property's quantifier is "programs built from a labelled vocabulary of globals (builtins / dangerous stdlib / benign stdlib
+# / non-stdlib) crossed with ... every call-making opcode, every way of disposing of or re-using the call's value ... and
+# arbitrary benign data before and after".  What the opcodes of such a program decompile to is decided by C03/C05/C09; here the
+# *decompiled* side of the quantifier is enumerated: one program text per (vocabulary entry x statement form the handlers
+# emit), parsed into a real syntax tree (data, nothing of fickling runs), and ASTProperties, Pickled.non_standard_imports /
+# unsafe_imports, AnalysisContext, every registered Analysis and Analyzer.analyze are interpreted over it (sa/objeval).  The
+# verdict (the highest severity among the results) must reach the property's floor.
+BAD_BUILTINS = ["eval", "exec", "compile", "open"]
+OTHER_BUILTINS = ["getattr", "__import__", "print", "map"]
+STD_DANGEROUS = {"os", "posix", "nt", "subprocess", "sys", "socket", "shutil", "urllib", "code"}
+BENIGN_STD = [("collections", "OrderedDict"), ("datetime", "date")]
+NON_STD = [
+    ("foo.bar", "Baz"), ("numpy.core.multiarray", "_reconstruct"), ("sklearn", "thing"),
+    ("json.evilplugin", "Hook"),  # below a standard-library package, but not part of the standard library
+    ("commands", "getoutput"),  # a Python 2 module name (in _compat_pickle.IMPORT_MAPPING); not a Python 3 standard module
+    ("distutils.spawn", "spawn"),  # standard library of older Pythons only
+]
+FORMERLY_STD = {"commands", "distutils.spawn", "distutils"}
+# a standard-library global that has the name of a builtin: resolving it (and dropping it) must not exempt a later call of the
+# builtin, which decompiles to the same bare name without an import
+SHADOWS = [("codecs", "open", "OVERTLY_MALICIOUS"), ("io", "open", "OVERTLY_MALICIOUS"), ("importlib", "__import__", "LIKELY_UNSAFE")]
+
+FORMS = {
+    # name -> (statements after the import, has a call of N, has a computed callee)
+    "import-only": ("result = {N}", False, False),
+    "call-is-result": ("_var0 = {N}('a')\nresult = _var0", True, False),
+    "call-discarded": ("_var0 = {N}('a')\nresult = 7", True, False),
+    "call-reused": ("_var0 = {N}('a')\nresult = [_var0, _var0]", True, False),
+    "call-starred-args": ("_var0 = {N}(*['a', 'b'])\nresult = _var0", True, False),
+    "call-kwargs": ("_var0 = {N}('a', **{{'k': 1}})\nresult = _var0", True, False),
+    "call-long-arguments": ("_var0 = {N}('aaaaaaaaaaaaaaaaaaaaaaaaaaaaaaaaaaaaaaaaaaaaaaaaaaa', 1)\nresult = _var0", True, False),
+    "call-long-unbroken-argument": ("_var0 = {N}(\"__import__('os').system('id')\")\nresult = _var0", True, False),
+    "call-long-spaced-arguments": ("_var0 = {N}('a b c d e f g h i j k l m n o p q r s t u v w x y z', 1, 2, 3)\nresult = _var0", True, False),
+    "call-twice": ("_var0 = {N}('a')\n_var1 = {N}('a')\nresult = (_var0, _var1)", True, False),
+    "call-inside-benign-data": ("_var1 = {N}('a')\n_var2 = _var9\n_var2.__setstate__({{'k': _var1}})\nresult = [1, 'x', _var2]", True, False),
+    "computed-callee": ("_var0 = {N}('a')\n_var1 = _var0('b')\nresult = _var1", True, True),
+}
+BENIGN_PREFIX = "from collections import OrderedDict\n_var9 = OrderedDict()\n"
+
+
+def _floor_worlds(tier: str, repo: Repo):
+    forms = list(FORMS) if tier == "thorough" else ["import-only", "call-is-result", "call-discarded", "call-long-arguments", "call-long-unbroken-argument", "call-inside-benign-data", "computed-callee"]
+    vocab = []
+    for n in BAD_BUILTINS:
+        vocab.append(("bad-builtin", None, n, True, None, "OVERTLY_MALICIOUS"))
+    for n in OTHER_BUILTINS if tier == "thorough" else OTHER_BUILTINS[:2]:
+        vocab.append(("other-builtin", None, n, True, None, "LIKELY_UNSAFE"))
+    for m, n, fl in SHADOWS:
+        vocab.append(("builtin-name-imported-from-stdlib", m, n, True, None, fl))
+    for m in DOC_DANGEROUS:
+        std = m in STD_DANGEROUS
+        vocab.append(("dangerous-module", m, "fn", std, "LIKELY_OVERTLY_MALICIOUS", None))
+        vocab.append(("dangerous-submodule", m + ".sub", "fn", False, "LIKELY_OVERTLY_MALICIOUS", None))
+        if tier == "thorough":
+            vocab.append(("dangerous-submodule", m + ".sub", "fn", True, "LIKELY_OVERTLY_MALICIOUS", None))
+            vocab.append(("dangerous-submodule", m + ".a.b.c", "fn", False, "LIKELY_OVERTLY_MALICIOUS", None))
+        elif m in ("os", "torch.hub", "shutil"):
+            vocab.append(("dangerous-submodule", m + ".a.b.c", "fn", False, "LIKELY_OVERTLY_MALICIOUS", None))
+    for m, n in NON_STD:
+        vocab.append(("non-stdlib", m, n, False, "LIKELY_UNSAFE", "LIKELY_UNSAFE"))
+    for m, n in BENIGN_STD:
+        vocab.append(("benign-stdlib", m, n, True, None, None))
+    # names the source itself compares against: an exemption or special case keyed on one particular module or callee name is
+    # only visible to programs that use that name, so every module-like / identifier-like string constant of the analysis
+    # code is added to the vocabulary (as a module under each label it can carry, and as a callee name)
+    import builtins as _b
+
+    hforms = ["import-only", "call-is-result"]
+    harvested = []
+    for c in sorted(_harvest_constants(repo)):
+        if c in DOC_DANGEROUS or any(c.startswith(d + ".") for d in DOC_DANGEROUS):
+            harvested.append(("dangerous-module-named-in-source", c, "fn", True, "LIKELY_OVERTLY_MALICIOUS", None))
+            harvested.append(("dangerous-module-named-in-source", c, "fn", False, "LIKELY_OVERTLY_MALICIOUS", None))
+            harvested.append(("dangerous-submodule", c + ".sub", "fn", False, "LIKELY_OVERTLY_MALICIOUS", None))
+        else:
+            harvested.append(("module-named-in-source-as-non-stdlib", c, "fn", False, "LIKELY_UNSAFE", "LIKELY_UNSAFE"))
+        if c.isidentifier():
+            if c in BAD_BUILTINS:
+                continue
+            if hasattr(_b, c):
+                harvested.append(("builtin-named-in-source", None, c, True, None, "LIKELY_UNSAFE"))
+            harvested.append(("callee-named-in-source", "foo.bar", c, False, "LIKELY_UNSAFE", "LIKELY_UNSAFE"))
+            harvested.append(("callee-named-in-source", "os", c, True, "LIKELY_OVERTLY_MALICIOUS", None))
+    for entry in harvested:
+        for form in hforms:
+            vocab.append(entry + (form,))
+    for item in vocab:
+        cls, m, n, std, imp_floor, call_floor = item[:6]
+        only = item[6] if len(item) > 6 else None
+        for form in ([only] if only else forms):
+            body, has_call, computed = FORMS[form]
+            src_ = BENIGN_PREFIX + (f"from {m} import {n}\n" if m else "") + body.format(N=n) + "\n"
+            floors = []
+            if m and imp_floor:
+                floors.append(imp_floor)
+            if has_call and call_floor:
+                floors.append(call_floor)
+            if computed:
+                floors.append("LIKELY_UNSAFE")
+            floor = max(floors, key=lambda s_: RANK[s_]) if floors else None
+            exact = call_floor == "OVERTLY_MALICIOUS" and has_call
+            yield dict(cls=cls, module=m, name=n, std=std, form=form, src=src_, floor=floor, exact=exact)
+
+
+def _harvest_constants(repo: Repo) -> Set[str]:
+    import re
+
+    out = set()
+    nodes = [repo.module(A).tree]
+    for q in ("fickling.fickle.ASTProperties", "fickling.fickle.Pickled"):
+        c = repo.classes.get(q)
+        if c is not None:
+            for name in ("unsafe_imports", "non_standard_imports", "_process_import", "visit_Import", "visit_ImportFrom", "visit_Call"):
+                for fn in c.methods.get(name, []):
+                    nodes.append(fn.node)
+    f = repo.functions.get("fickling.fickle.is_std_module")
+    if f is not None:
+        nodes.append(f.node)
+    for root in nodes:
+        for n in ast.walk(root):
+            if isinstance(n, ast.Constant) and isinstance(n.value, str) and 0 < len(n.value) <= 40 and re.fullmatch(r"[A-Za-z_][A-Za-z0-9_]*(\.[A-Za-z_][A-Za-z0-9_]*)*", n.value):
+                out.add(n.value)
+    return out
+
+
+class _InStdlib:
+    """stdlib_list.in_stdlib(name, version=None) as the world labels it: the running Python's standard library, or - when an
+    older version is asked for - that one's (which additionally had the FORMERLY_STD modules)."""
+
+    sa_callable = True
+
+    def __init__(self, std):
+        self.std = std
+
+    def __call__(self, name, version=None, *a, **k):
+        if version is not None and not str(version).startswith("3.12"):
+            return name in self.std or name in FORMERLY_STD
+        return name in self.std
+
+
+def interpret_verdict(repo: Repo, src_: str, std_modules: Set[str], oe=None):
+    """Interprets Analyzer(<all registered analyses>).analyze(<pickle whose decompilation is `src_`>); returns the results as
+    (severity name, analysis, trigger) triples.  Passing the same `oe` again analyses another pickle *in the same process*
+    (class-level state, parameter defaults and functools caches persist, everything per-pickle is fresh)."""
+    from ..minieval import PyRaise, Unsupported
+    from ..objeval import Instance, ObjEval
+
+    oe = oe or ObjEval(repo)
+    mod = ast.parse(src_)
+    for i, st in enumerate(mod.body):
+        st.lineno, st.col_offset = i + 1, 0
+    oe.externals["stdlib_list.in_stdlib"] = _InStdlib(std_modules)
+    pk = repo.cls("fickling.fickle.Pickled")
+    it = repo.cls("fickling.fickle.Interpreter")
+    P = Instance(oe, pk)
+    P.fields.update({"_opcodes": [], "_ast": mod, "_properties": None})
+    # the decompilation of this abstract pickle *is* the program; so is the body of any Interpreter made for it
+    oe.forced_attrs[(pk.qualname, "ast")] = lambda inst: mod
+    oe.forced_attrs[(it.qualname, "_module")] = lambda inst: mod
+    oe.forced_attrs[(it.qualname, "module_body")] = lambda inst: list(mod.body)
+    ab = repo.cls(f"{A}.Analysis")
+    subs = sorted((c for c in repo.classes.values() if c is not ab and repo.is_subclass(c, ab.qualname)), key=lambda c: (c.module.name != A, c.module.name, c.node.lineno))
+    analyses = [oe.instantiate(c, [], {}) for c in subs]  # Analysis.ALL: one instance per subclass, in definition order (C04.registered)
+    az = oe.instantiate(repo.cls(f"{A}.Analyzer"), [analyses], {})
+    res = az.sa_attr("analyze")(P)
+    out = []
+    for r in res.sa_attr("results"):
+        sev = r.sa_attr("severity")
+        if not (isinstance(sev, tuple) and sev and sev[0] == "enum-member"):
+            raise AnalysisError(f"an analysis result carries {sev!r} as its severity")
+        out.append((sev[1]["name"], r.sa_attr("analysis_name"), r.sa_attr("trigger")))
+    return out
+
+
+_POOL_REPO = None
+
+
+def _world_chunk(worlds):
+    """(worker) interpret a chunk of programs; returns per world ('ok', res, again) | ('raises', name) | ('unsupported', msg)."""
+    from ..minieval import PyRaise, Unsupported
+    from ..objeval import ObjEval
+
+    repo = _POOL_REPO
+    std_base = {"collections", "datetime", "io", "os.path", "codecs", "importlib", "json"} | STD_DANGEROUS
+    out = []
+    for w in worlds:
+        std = set(std_base)
+        if w["module"] and w["std"]:
+            std.add(w["module"])
+        elif w["module"]:
+            std.discard(w["module"])
+        try:
+            oe = ObjEval(repo)
+            res = interpret_verdict(repo, w["src"], std, oe)
+            again = interpret_verdict(repo, w["src"], std, oe)  # a second pickle with the same content, same process
+            out.append(("ok", res, again))
+        except Unsupported as e:
+            out.append(("unsupported", str(e)))
+        except PyRaise as pe:
+            out.append(("raises", pe.name))
+        except AnalysisError as e:
+            out.append(("unsupported", str(e)))
+    return out
+
+
+def check_floor_worlds(repo: Repo, rep: Report, tier: str):
+    import multiprocessing as mp
+    from concurrent.futures import ProcessPoolExecutor
+
+    global _POOL_REPO
+    rule = "C04.floor-worlds"
+    an = repo.cls(f"{A}.Analyzer")
+    bad: Dict[str, Tuple[int, str]] = {}
+    worlds = list(_floor_worlds(tier, repo))
+    n = len(worlds)
+    _POOL_REPO = repo
+    jobs = min(16, os.cpu_count() or 1)
+    chunks = [worlds[i::jobs] for i in range(jobs)]
+    try:
+        with ProcessPoolExecutor(max_workers=jobs, mp_context=mp.get_context("fork")) as ex:
+            parts = list(ex.map(_world_chunk, chunks))
+    except (OSError, RuntimeError):
+        parts = [_world_chunk(c) for c in chunks]  # no pool available: same work, one process
+    for chunk, outs in zip(chunks, parts):
+        for w, o in zip(chunk, outs):
+            desc = f"decompiled program `{w['src'][len(BENIGN_PREFIX):].strip().replace(chr(10), '; ')}` ({w['cls']}, {'standard-library' if w['std'] else 'not standard-library'} module)"
+            if o[0] == "unsupported":
+                raise AnalysisError(f"analysis pipeline: cannot interpret over {desc}: {o[1]}")
+            if o[0] == "raises":
+                key = f"raises:{o[1]}:{w['cls']}:{w['form']}"
+                c, m = bad.get(key, (0, f"the analysis pipeline raises {o[1]} on {desc}"))
+                bad[key] = (c + 1, m)
+                continue
+            _, res, again = o
+            if w["floor"] is None:
+                continue
+            for which, rs in (("", res), (":second-analysis-in-the-process", again)):
+                verdict = max((s_ for s_, _, _ in rs), key=lambda s_: RANK[s_], default="LIKELY_SAFE")
+                if RANK[verdict] < RANK[w["floor"]] or (w["exact"] and verdict != w["floor"]):
+                    key = f"below-floor:{w['cls']}:{w['form']}:{verdict}{which}"
+                    c, m = bad.get(key, (0, f"verdict {verdict} for {desc}{' when the same content is analysed a second time in one process' if which else ''}; the floor is {w['floor']} (results: {[(s_, a_) for s_, a_, _ in rs]})"))
+                    bad[key] = (c + 1, m)
+                    break
+    for key, (c, m) in sorted(bad.items()):
+        rep.bad(rule, an.qualname + ".analyze", key, f"{m} [{c} of {n} programs]", an.module.relpath, an.node.lineno)
+    rep.ok(rule, an.qualname + ".analyze", f"{n} decompiled programs, each analysed twice in one process (vocabulary: the 4 overtly bad builtins, other builtins, standard-library globals named like builtins, the 11 documented dangerous modules and submodules of each, non-standard-library modules incl. Python-2 and formerly-standard names, benign standard-library modules, and every module-like or identifier-like string constant of the analysis code as module and as callee name; x {len(FORMS) if tier == 'thorough' else 7} statement forms) interpreted through ASTProperties, the import helpers, AnalysisContext and every registered analysis; each verdict reaches the floor", "", nontrivial=True)
